@@ -17,8 +17,9 @@ from nv import loader, cbuild, cexpr, universe as U
 VARS = {
     "a": ("int{signed, size 1}", (8, True)), "b": ("int{unsigned, size 1}", (8, False)), "c": ("int{signed, size 2}", (16, True)), "d": ("int{unsigned, size 2}", (16, False)),
     "e": ("int", (32, True)), "u": ("int{unsigned}", (32, False)), "l": ("int{size 8}", (64, True)), "q": ("int{unsigned, size 8}", (64, False)),
+    "w": ("int{unsigned, size 4}", (32, False)), "x": ("int{signed, size 4}", (32, True)),      # the 32-bit types spelled with an explicit size
 }
-TARGETS = ["a", "b", "c", "d", "e", "u", "l", "q"]
+TARGETS = ["a", "b", "c", "d", "e", "u", "l", "q", "w", "x"]
 ARITH = ["+", "-", "*", "/", "%", "|", "^", "&", "<<", ">>"]
 CMP = ["==", "!=", "<", ">", "<=", ">="]
 LOGIC = ["||", "&&"]
@@ -29,7 +30,7 @@ def V(n):
 
 
 I_ATOMS = [("num", 0), ("num", 1), ("num", 2), ("num", 7), ("num", 255, "0xff"), ("num", -1), ("num", 3, "0b11"), ("char", 97), ("num", 2147483647), ("num", 40),
-           V("a"), V("b"), V("c"), V("d"), V("e"), V("u"), V("l"), V("q"), ("len", "s"), ("idx", "s", ("num", 0)), ("idx", "s", ("num", 1)), ("idx", "s", ("num", 9)), ("idx", "s", V("a")), ("last",)]
+           V("a"), V("b"), V("c"), V("d"), V("e"), V("u"), V("l"), V("q"), V("w"), ("len", "s"), ("idx", "s", ("num", 0)), ("idx", "s", ("num", 1)), ("idx", "s", ("num", 9)), ("idx", "s", V("a")), ("last",)]
 I_SMALL = [("num", 2), ("num", -1), V("a"), V("b"), V("e"), V("u"), ("idx", "s", ("num", 0))]
 B_ATOMS = [("bool", 1), ("bool", 0), V("f"), V("g")]
 
@@ -76,6 +77,8 @@ def typed_trees(tier, seed):
     triples = [(I_SMALL[i], I_SMALL[(i + 2) % len(I_SMALL)], I_SMALL[(i + 5) % len(I_SMALL)]) for i in range(len(I_SMALL))]
     if tier == "quick":
         triples = triples[seed % 3::3]
+    # operands of different widths: a narrower (unsigned 32-bit) sub-expression nested in a 64-bit one keeps its own type
+    triples += [(V("l"), V("u"), V("e")), (V("q"), V("w"), V("x")), (V("u"), V("b"), V("q")), (V("l"), V("w"), V("d"))]
     btri = [(B_ATOMS[2], B_ATOMS[0], B_ATOMS[3]), (B_ATOMS[3], B_ATOMS[2], B_ATOMS[1])]
 
     def ty(op):
